@@ -592,3 +592,43 @@ def shared_expr(ctx: Ctx) -> None:
     from . import C16 as _c16
     from .common import support
     support(ctx, [_c16.r2, _c16.r3], {"Expr.__add__", "Expr.__mul__"})
+
+
+@rule("C07", "R11.integer-arithmetic", "EFFECT",
+      "coefficients and bounds are arbitrary-size integers from the inequality to the clauses: the encoding code of "
+      "tools/rect/pseudobool.py never takes them through floating point (no true division, no float(), no math / numpy "
+      "function, no arithmetic with a float literal) -- a detour through a double is exact only up to 2**53 and rounds logarithms of numbers just "
+      "below a power of two upwards", floor=20)
+def r11_integers(ctx: Ctx) -> None:
+    n = 0
+    mi = None
+    for f in ctx.model.all_functions(include_inlined=True):
+        if f.module.relpath != PB:
+            continue
+        mi = f.module
+        n += 1
+        bad = []
+        for x in walk_own(f.node):
+            if isinstance(x, ast.BinOp) and isinstance(x.op, ast.Div):
+                bad.append((x, "true division"))
+            elif isinstance(x, ast.AugAssign) and isinstance(x.op, ast.Div):
+                bad.append((x, "true division"))
+            elif isinstance(x, ast.BinOp) and any(isinstance(o, ast.Constant) and isinstance(o.value, float) for o in (x.left, x.right)):
+                bad.append((x, "arithmetic with a float literal"))          # (a comparison with 0.0 is exact: not arithmetic)
+            elif isinstance(x, ast.AugAssign) and isinstance(x.value, ast.Constant) and isinstance(x.value.value, float):
+                bad.append((x, "arithmetic with a float literal"))
+            elif isinstance(x, ast.Call):
+                nm = call_name(x)
+                root = x.func
+                while isinstance(root, ast.Attribute):
+                    root = root.value
+                if nm == "float" or (isinstance(root, ast.Name) and root.id in ("math", "cmath", "numpy", "np", "statistics") and x.func is not root):
+                    bad.append((x, f"{ast.unparse(x.func)}()"))
+                elif isinstance(x.func, ast.Name) and x.func.id in mi.imports and mi.imports[x.func.id].split(".")[0] in ("math", "cmath", "numpy", "statistics"):
+                    bad.append((x, f"{mi.imports[x.func.id]}()"))
+        ctx.site(f.where, "integer arithmetic only", floating_point_operations=len(bad))
+        for x, what in bad:
+            ctx.report(f.where, f"floating-point {ast.unparse(x)[:50]}", f"{f.qualname} computes with floating point ({what}): coefficients beyond 2**53, or just "
+                       "below a power of two, are rounded, so the decomposition / the bound differs from the integer one and the encoding admits or "
+                       "forbids the wrong assignments", lineno=getattr(x, "lineno", f.node.lineno))
+    ctx.require(n >= 20, f"functions of the pseudo-Boolean module fewer than confirmed ({n})")
